@@ -149,10 +149,12 @@ type WsCase struct {
 	Slices []int     `json:"slices,omitempty"`
 	// FeedAfter as in RtspCase
 	FeedAfter int `json:"feed_after,omitempty"`
+	// PrefixSdp as in RtspCase (stage announced)
+	PrefixSdp *Sdp `json:"prefix_sdp,omitempty"`
 }
 
 func (c *WsCase) rtsp() *RtspCase {
-	return &RtspCase{Stage: c.Stage, Video: "avc", Audio: "aac"}
+	return &RtspCase{Stage: c.Stage, Video: "avc", Audio: "aac", PrefixSdp: c.PrefixSdp}
 }
 
 func (c *WsCase) isWs() bool {
@@ -285,6 +287,9 @@ func genWsCase(huge bool) func(t *rapid.T) WsCase {
 			c.Upgrade = [][2]string{{"Connection", "Upgrade"}, {"Upgrade", "websocket"}, {"Sec-WebSocket-Key", rapid.SampledFrom([]string{"", "x", "\x00", "AAAAAAAAAAAAAAAAAAAAAAAAAAAAAAAAAAAAAAAAAAAAAAAAAAAAAAAAAAAAAAAAAAAAAAAAAAAAAAAAAAAAAAAAAAAAAAAAAAAAAAAAAAAA"}).Draw(t, "wsKey")}}
 		}
 		c.Stage = rapid.SampledFrom([]string{"none", "options", "options", "announced", "described", "subsetup", "playing"}).Draw(t, "stage")
+		if c.Stage == "announced" && !huge && rapid.Bool().Draw(t, "prefixSdp") {
+			c.PrefixSdp = genAcceptedSdp(t)
+		}
 		n := rapid.IntRange(1, 6).Draw(t, "nframes")
 		for i := 0; i < n; i++ {
 			c.Frames = append(c.Frames, genWsFrame(t, &c, huge))
@@ -342,6 +347,10 @@ func runWs(c WsCase) *pbt.Violation {
 
 func classifyWs(c WsCase) (bool, []string) {
 	labels := []string{"stage:" + c.Stage}
+	if c.PrefixSdp != nil {
+		labels = append(labels, "prefix-sdp:hostile-but-accepted")
+		labels = append(labels, c.PrefixSdp.accLabels()...)
+	}
 	if c.isWs() {
 		labels = append(labels, "upgrade:websocket")
 	} else {
